@@ -109,3 +109,9 @@ def cases(tier, seed, ctx=None):
             resp = setters(rng, rng.range(0, 2)) + [rng.choice([G.WriteError(rng.choice(CODES), rng.choice(REASONS)), G.WriteJson(j, rng.choice(CODES), rendered[j])])]
         ops = [G.Construct, G.Feed(head + body), G.Turn, G.Ack(100000)]
         yield ("sock", [[resp, [], []], ops, G.env_for(rver, rtab, [q["raw"]]), [3]], "answered-request-method-%d" % q["method"])
+    # a streaming producer over a real connection: a burst of large blocks written back to back (more than 64 KiB pending), topped up
+    # from inside the write-progress notification: the blocks arrive in the order of the write calls (family stream)
+    for j in range(3 if tier == "quick" else 20):
+        nblocks = rng.choice([8, 24, 64])
+        blocks = [bytes([65 + (k % 26)]) * rng.choice([4096, 20000]) for k in range(nblocks)]
+        yield ("stream", [blocks, j % 2, rng.below(2), rng.choice([3, 6, 12])], "stream-burst-topped-up")
